@@ -29,7 +29,8 @@ class ForwardUnit(Unit):
         return a + b
     def gen(self, ctx, prog):
         if 'EnumString' in prog.derives:
-            pre, plan, consts, lem = spec_parse.gen(prog, ctx.pid)
+            parse_unit.signature_obligation(ctx, self, prog)
+            pre, plan, consts, lem = spec_parse.gen(prog, ctx.pid, parse_unit.found_err(self, prog))
             pre2, plan2, consts2, lem2 = spec_print.gen(prog, ctx.pid)
             plan.update(plan2)
             consts.update(consts2)
